@@ -350,7 +350,7 @@ func init() {
 			ints := []int64{0, 1, -1, 2, 7, -7, 3, 10, math.MaxInt64, math.MinInt64}
 			floats := []float64{0.0, 1.0, -1.0, 2.0, 0.5, -2.5, 7.0, 3.0, 5e-10, -2.5e-10, 1e-300, 5e-324, 1e300, 0.1, 0.2, 0.3}
 			ops := []string{"+", "-", "*", "/", "%", "^"}
-			lines := "3_0.5|0_0.0|-7_2.0|10_-2.5"
+			lines := "3_0.5|0_0.0|-7_2.0|10_-2.5|1_2.25|2_0.3|5_1.0"
 			emit := func(n *c02Node) {
 				o := &c02Oracle{entries: map[string]bool{}}
 				n.collectConst(o)
@@ -391,6 +391,25 @@ func init() {
 							for b := 0; b < nb; b++ {
 								emit(&c02Node{kind: 'b', op: op, a: lit(af, a), b: lit(bf, b)})
 							}
+						}
+					}
+				}
+			}
+			// chains of two constants around a capture, left- and right-nested: regrouping the constants
+			// (or the operators) is not an identity on floats, nor on wrapping integers under / and %
+			chainOps := [][2]string{{"+", "+"}, {"-", "-"}, {"*", "*"}, {"/", "/"}, {"%", "%"}, {"^", "^"}, {"+", "-"}, {"-", "+"}, {"*", "/"}, {"/", "*"}}
+			chainConsts := []*c02Node{
+				{kind: 'f', f: 0.1}, {kind: 'f', f: 0.2}, {kind: 'f', f: 0.3}, {kind: 'f', f: 3.0},
+				{kind: 'f', f: 9007199254740992.0}, {kind: 'f', f: -9007199254740992.0},
+				{kind: 'i', i: 3}, {kind: 'i', i: 2}, {kind: 'i', i: math.MaxInt64},
+			}
+			for _, po := range chainOps {
+				for v := 1; v <= 2; v++ {
+					for _, c1 := range chainConsts {
+						for _, c2 := range chainConsts {
+							x := &c02Node{kind: 'v', v: v}
+							emit(&c02Node{kind: 'b', op: po[1], a: &c02Node{kind: 'b', op: po[0], a: x, b: c1}, b: c2})
+							emit(&c02Node{kind: 'b', op: po[0], a: c1, b: &c02Node{kind: 'b', op: po[1], a: c2, b: x}})
 						}
 					}
 				}
